@@ -201,6 +201,14 @@ def createDst (fuel : Nat) (clocks : List String) (name : String) (d : KVs) : FR
         pure (a, b)
       | some _ => Except.error (.crash "AttributeError: event record features")
     | some _ => Except.error (.crash "AttributeError: features")
+  -- the timestamp features need a clock
+  let pktNode0 : KVs := match kvGetNN "$features" d with
+    | some (.map f) => match kvGetNN "packet" f with | some (.map p) => p | _ => []
+    | _ => []
+  let beg ← featureFt fuel pktNode0 "beginning-timestamp-field-type" tsD
+  let end_ ← featureFt fuel pktNode0 "end-timestamp-field-type" tsD
+  if !hasClk && (beg.isSome || end_.isSome || tsFt.isSome) then
+    Except.error (.other "Timestamp field type feature requires a default clock type")
   let ertsV ← reqK "event-record-types" d
   let erts ← match ertsV with
     | .map em => pure em
@@ -285,11 +293,41 @@ def schemaStage (store : Store) (fuel : Nat) (sid : String) (y : Y) : FR Unit :=
   | some false => .error (.other ("schema " ++ sid))
   | none => .error .fuel
 
+/-- the schema each `_process_*_node_include` validates its node with before anything else -/
+def preIncludeSchema : Kind → String
+  | .trace => "config/3/trace-pre-include"
+  | .traceType => "config/3/trace-type-pre-include"
+  | .clockType => "config/3/clock-type-pre-include"
+  | .dst => "config/3/dst-pre-include"
+  | .ert => "config/3/ert-pre-include"
+  | .meta2 => "config/2/metadata-pre-include"
+  | .traceType2 => "config/2/trace-type-pre-include"
+  | .clockType2 => "config/2/clock-type-pre-include"
+  | .dst2 => "config/2/dst-pre-include"
+  | .ert2 => "config/2/ert-pre-include"
+
+/-- `procInclude` (Model/Expand.lean) with the schema validation every `_process_*_node_include` starts with,
+    on the node it is given and on every file it loads -/
+def procIncludeChecked (store : Store) (W : World) : Nat → Stack → Kind → Y → FR Y
+  | 0, _, _, _ => .error .fuel
+  | fuel + 1, stack, kd, node => do
+    schemaStage store (fuel + 1) (preIncludeSchema kd) node
+    match node with
+    | .map m0 => do
+      let m1 ← kd.children.foldlM (childStep (fun k' c => procIncludeChecked store W fuel stack k' c)) m0
+      match kvGet "$include" m1 with
+      | none => .ok (.map m1)
+      | some inc => do
+        let paths ← includePaths inc
+        let base ← paths.foldlM (inclStep (fun st c => procIncludeChecked store W fuel st kd c) W stack kd.isV3) none
+        .ok (finishInclude kd.isV3 base (kvErase "$include" m1))
+    | _ => .error (.shape "includable object is not a mapping")
+
 /-- the whole of `_parse` for a barectf 3 configuration node -/
 def load3 (store : Store) (W : World) (fuel : Nat) (cfg : KVs) : FR KVs := do
   schemaStage store fuel "config/3/config-pre-include" (.map cfg)
   let tr ← reqK "trace" cfg
-  let tr1 ← procInclude W fuel [] .trace tr
+  let tr1 ← procIncludeChecked store W fuel [] .trace tr
   let cfg1 := kvSet "trace" tr1 cfg
   schemaStage store fuel "config/3/config-pre-field-type-expansion" (.map cfg1)
   let trm ← match tr1 with | .map m => pure m | _ => Except.error (.crash "TypeError: trace")
